@@ -336,7 +336,7 @@ func buildHeaders(hs []*Header) []*sebufhttp.Header {
 	var out []*sebufhttp.Header
 	for _, h := range hs {
 		out = append(out, &sebufhttp.Header{Name: h.Name, Type: h.Type, Format: h.Format, Required: h.Required,
-			Description: h.Description, Example: h.Example})
+			Description: h.Description, Example: h.Example, Deprecated: h.Deprecated})
 	}
 	return out
 }
